@@ -181,9 +181,20 @@ def run(ctx):
             ctx.bump('rows.%s' % (len(c['cells']) if len(c['cells']) < 9 else '9+'))
         err = io.StringIO()
         try:
+            df_in = df.copy()
             with contextlib.redirect_stderr(err), contextlib.redirect_stdout(err):
-                cs = discover_df(df.copy(), inc_rex=False)
+                cs = discover_df(df_in, inc_rex=False)
             got = cs.to_dict()['fields'] if cs is not None else {}
+            if i % 4 == 0:
+                # the caller's frame is left as it was, and discovering again from it gives the same constraints
+                with contextlib.redirect_stderr(err), contextlib.redirect_stdout(err):
+                    cs_b = discover_df(df_in, inc_rex=False)
+                got_b = cs_b.to_dict()['fields'] if cs_b is not None else {}
+                same_frame = list(df_in.columns) == list(df.columns) and [str(t) for t in df_in.dtypes] == [str(t) for t in df.dtypes] \
+                    and repr(df_in.to_dict('list')) == repr(df.to_dict('list'))
+                if repr(got_b) != repr(got):
+                    ctx.fail(case, 'discovering twice from one frame object gives %r and then %r; the frame %s'
+                             % (got, got_b, 'is unchanged' if same_frame else 'was changed by discovery'))
         except Exception as e:
             ctx.fail(case, 'discover_df raised %s: %s' % (type(e).__name__, str(e)[:300]))
             continue
